@@ -60,6 +60,11 @@ class SimLock:
             if not blocking:
                 return False
             s.probe("acquire_on_held_lock")
+            if timeout is not None and timeout > 0 and s.timed_wait_expires():
+                # simulated time: the holder is "stalled" for longer than the caller is willing to wait
+                s.probe("timed_acquire_expired")
+                s.yield_point(tid, ("lock", "timeout"))
+                return False
             self._waiters.append(tid)
             s.block(tid)
 
@@ -270,6 +275,20 @@ class Scheduler:
         self.main_done = _real_allocate()
         self.main_done.acquire()
         self.where = {}  # tid -> last yield label (where a parked thread stands)
+        self.timeouts = []          # decisions taken for timed waits on a held lock (True = the wait expired)
+        self.timeout_plan = None    # replay: list of recorded decisions
+        self.timeout_rng = None     # otherwise: seeded PRNG, expiry probability timeout_p
+        self.timeout_p = 0.5
+
+    def timed_wait_expires(self):
+        if self.timeout_plan is not None:
+            d = self.timeout_plan[len(self.timeouts)] if len(self.timeouts) < len(self.timeout_plan) else False
+        elif self.timeout_rng is not None:
+            d = self.timeout_rng.random() < self.timeout_p
+        else:
+            d = False
+        self.timeouts.append(bool(d))
+        return bool(d)
 
     def probe(self, k, n=1):
         self.probes[k] = self.probes.get(k, 0) + n
